@@ -117,7 +117,7 @@ def one(job):
     rc, so_, se, evs = fsmon.run_monitored(exe, so, [cmd, '../a.lzh'] + [p.decode('latin1') for p in pats], root, stdin=answers, env={'VERIF_FS_ROOT': root})
     # make everything readable for the walk (we are root, so modes do not block us) and snapshot
     got = walk(root)
-    stats = {'rc': rc, 'entries': len(entries), 'got': len(got), 'denied': sum(1 for e in evs if e.denied),
+    stats = {'rc': rc, 'entries': len(entries), 'got': len(got), 'denied': sum(1 for e in evs if e.denied == 1),
              'dir_metadata_after_children': sum(1 for e in evs if e.call in ('chmod', 'utime') and (e.arg or b'').endswith(b'/'))}
     shutil.rmtree(d, ignore_errors=True)
     return n, tag, cmd, pats, A, rc, so_, se, got, stats, job
